@@ -22,6 +22,7 @@ let run_all (p : M.program) (o : M.output) : string =
       "C12:" ^ b2s (M.chk_C12 o);
       "C15:" ^ b2s (M.chk_C15 p o);
       "C18:" ^ b2s (M.chk_C18 p o);
+      "C18v:" ^ (if dom then b2s (M.chk_C18_values p o) else "-");
       "C14:" ^ b2s (M.chk_C14 p o);
       "C02:" ^ b2s (M.chk_C02 p o);
       "C01:" ^ b2s (M.chk_C01 p o);
